@@ -15,6 +15,7 @@ import WuffsVerif.Proof.HashLoops
 import WuffsVerif.Proof.PngEncode
 import WuffsVerif.Proof.PngSafe
 import WuffsVerif.Proof.PngPixels
+import WuffsVerif.Proof.PngGen
 
 namespace WuffsVerif.Props.C19
 open WuffsVerif.Hash WuffsVerif.Png WuffsVerif.Png.Uncomp WuffsVerif.Gen.C19
@@ -187,6 +188,67 @@ theorem encoder_reusable {e : Enc} (hr : Reached e) (pix : Array UInt8) (width h
       = some ⟨width, height, depth.toNat, (pngFileFormatEncoding colorType).toNat,
           imageBytes pix (loopParams depth colorType).1 (loopParams depth colorType).2 width stride height 0⟩ :=
   png_roundtrip e pix width height stride depth colorType (reached_usable hr) hlen hw hw2 hh hh2 hd hc hpix
+
+/-! ## Go `int` arithmetic: `y*stride` never wraps where it matters
+
+The model computes the row offset `y*stride` with Go's 64-bit wrap-around (`wrapInt64`), so it is exact
+for every `int` stride; the theorems above need only `len(pix) < 2^63`, which holds of every Go slice.
+The two facts below say when the wrap-around is the identity. -/
+
+/-- inside the property (`(height-1)*stride + k*width ≤ len(pix)`), every row offset is the
+mathematical product and the row lies inside `pix`. -/
+theorem row_offset_no_overflow (pix : Array UInt8) (width height stride k : Nat) (hlen : pix.size < 2 ^ 63)
+    (hpix : (height - 1) * stride + k * width ≤ pix.size) (y : Nat) (hy : y < height) :
+    wrapInt64 ((y : Int) * (stride : Int)) = ((y * stride : Nat) : Int) ∧ y * stride + k * width ≤ pix.size := by
+  have h1 : y * stride ≤ (height - 1) * stride := Nat.mul_le_mul_right _ (by omega)
+  refine ⟨?_, by omega⟩
+  rw [← Int.natCast_mul]
+  exact wrapInt64_natCast _ (by omega)
+
+/-- outside the property, for ANY call that gets past row 1 without a slice-bounds panic
+(`0 ≤ stride ≤ len(pix)`: the offset of row 1 is `stride` itself): no row offset wraps as long as
+`len(pix) < 2^39` (512 GiB) — `y < height ≤ 0xFFFFFF < 2^24`.  Beyond that size a wrapped offset can
+only select a different in-range row or panic; Go slicing is bounds-checked either way. -/
+theorem row_offset_no_wrap_of_accepted (stride : Int) (size y : Nat) (h0 : 0 ≤ stride) (h1 : stride ≤ size)
+    (hs : size < 2 ^ 39) (hy : y < 2 ^ 24) : wrapInt64 ((y : Int) * stride) = (y : Int) * stride := by
+  obtain ⟨n, rfl⟩ := Int.eq_ofNat_of_zero_le h0
+  have hn : n ≤ size := by omega
+  have hb : y * n ≤ 2 ^ 24 * 2 ^ 39 := Nat.mul_le_mul (by omega) (by omega)
+  have hlt : y * n < 2 ^ 24 * 2 ^ 39 := by
+    rcases Nat.eq_zero_or_pos n with rfl | hpos
+    · simp
+    · calc y * n < 2 ^ 24 * n := Nat.mul_lt_mul_of_pos_right hy hpos
+        _ ≤ 2 ^ 24 * 2 ^ 39 := Nat.mul_le_mul_left _ (by omega)
+  rw [← Int.natCast_mul]
+  exact wrapInt64_natCast _ (by omega)
+
+/-! ## The model's constants are the source's (regenerated on every run)
+
+`Gen/C19_Tables.lean` is extracted from lib/uncompng/uncompng.go by go/parser before every build;
+these theorems fail to build when the source's constants stop being the model's. -/
+
+/-- `init` of the model executes exactly the source's stores (index, value, order) -/
+theorem init_matches_source (e : Enc) (width height : Nat) (depth colorType : UInt8) :
+    init e width height depth colorType = runInit width height depth colorType initProg e 0 :=
+  init_eq_source e width height depth colorType
+
+/-- the six pixel loops of the source have the (n, k) of `loopParams`, consistently in all five places -/
+theorem loops_match_source :
+    loopTable.map (·.1) = [0x09, 0x0A, 0x0B, 0x11, 0x12, 0x13] ∧
+    ∀ d ∈ [(8 : UInt8), 16], ∀ c ∈ [(1 : UInt8), 2, 3],
+      loopTable.lookup (d ||| c).toNat =
+        some ((loopParams d c).2, (loopParams d c).1, (loopParams d c).1, (loopParams d c).1, (loopParams d c).2) :=
+  loopTable_eq_source
+
+/-- buffer size, colour-type encoding, IEND chunk, layout offsets, Adler chunking, size limit -/
+theorem constants_match_source :
+    Enc.new.buf.size = bufSize ∧
+    (∀ c : UInt8, (pngFileFormatEncoding c).toNat = ((ctEncoding.lookup c.toNat).getD ctEncodingDefault)) ∧
+    iendChunk.map (·.toNat) = iendChunkSrc ∧
+    (eiFirst = 0x30 ∧ eiLater = 0x0D ∧ ejMax = 0xFFF8 ∧ bufSize = 0x10000) ∧
+    (adlerChunk = 5552 ∧ adlerMod = 65521) ∧ maxDim = 0xFFFFFF ∧ rowReserve = 1 :=
+  ⟨bufSize_eq, encoding_eq_source, iendChunk_eq_source, layout_consts_eq,
+    ⟨adler_consts_eq.1, adler_consts_eq.2.1⟩, maxDim_eq, rowReserve_eq⟩
 
 /-! ## Writer errors and argument validation -/
 
